@@ -139,6 +139,11 @@ theorem pfIso_allowed {u : User} {perm : String} {o : Obj} (hne : perm ≠ "")
     obtain ⟨p, hpu, hpm, hpf'⟩ := mem_permissionFilters hf
     exact ⟨p, hpu, hpm, Or.inr ⟨f, hpf', hfo⟩⟩
 
+theorem pfIso_ne_of_not_allowed {u : User} {perm : String} {o : Obj} (hperm : perm ≠ "")
+    (hm : someMatch u perm = true) (hforbidden : ¬ Allowed u perm o) :
+    pfIso (permissionFilters u perm) o ≠ some true :=
+  fun h => hforbidden (pfIso_allowed hperm hm h)
+
 /-! ### the permission frame -/
 
 /-- What the frame can hold: nothing, or a Service that the request was able to visit. -/
@@ -376,9 +381,9 @@ theorem ofType_type {inv : Inventory} {t : String} {o : Obj} (h : o ∈ ofType i
   have := (List.mem_filter.1 h).2
   simpa using this
 
-theorem phase2_ok {u : User} {perm : String} (qd : QD) (q : Query) (inv : Inventory) (st : Option Obj)
-    (objs : List Obj) (hiso : IsoVisit qd.sharedFrame qd.types u) (hst : StInv qd.types st)
-    (h : (phase2 (permissionFilters u perm) qd q inv st).1 = .ok objs) :
+theorem phase2_ok {u : User} {perm : String} {shared : Bool} (qd : QD) (q : Query) (inv : Inventory) (st : Option Obj)
+    (objs : List Obj) (hiso : IsoVisit shared qd.types u) (hst : StInv qd.types st)
+    (h : (phase2 shared (permissionFilters u perm) qd q inv st).1 = .ok objs) :
     ∀ o ∈ objs, pfIso (permissionFilters u perm) o = some true ∧ o ∈ inv := by
   unfold phase2 at h
   cases ht : q.type with
@@ -418,9 +423,9 @@ theorem phase2_ok {u : User} {perm : String} (qd : QD) (q : Query) (inv : Invent
         simp [hv, hc'] at h
     · simp [hv] at h
 
-theorem phase2_frame_irrel {u : User} {perm : String} (qd : QD) (q : Query) (inv : Inventory) (st st' : Option Obj)
-    (hiso : IsoVisit qd.sharedFrame qd.types u) (hst : StInv qd.types st) (hst' : StInv qd.types st') :
-    phase2 (permissionFilters u perm) qd q inv st = phase2 (permissionFilters u perm) qd q inv st' := by
+theorem phase2_frame_irrel {u : User} {perm : String} {shared : Bool} (qd : QD) (q : Query) (inv : Inventory) (st st' : Option Obj)
+    (hiso : IsoVisit shared qd.types u) (hst : StInv qd.types st) (hst' : StInv qd.types st') :
+    phase2 shared (permissionFilters u perm) qd q inv st = phase2 shared (permissionFilters u perm) qd q inv st' := by
   unfold phase2
   cases ht : q.type with
   | none => rfl
@@ -454,16 +459,16 @@ theorem phase2_frame_irrel {u : User} {perm : String} (qd : QD) (q : Query) (inv
 
 /-- Under `IsoVisit`, everything `filterTargets` returns passed the permission filter evaluated on the object
     alone, and is a registered object. -/
-theorem filterTargets_ok (u : User) (qd : QD) (q : Query) (inv : Inventory) (objs : List Obj)
-    (hiso : IsoVisit qd.sharedFrame qd.types u)
-    (h : (filterTargets u qd q inv).result = .ok objs) :
+theorem filterTargets_ok (shared : Bool) (u : User) (qd : QD) (q : Query) (inv : Inventory) (objs : List Obj)
+    (hiso : IsoVisit shared qd.types u)
+    (h : (filterTargetsWith shared u qd q inv).result = .ok objs) :
     hasPermission u qd.permission = true ∧
     ∀ o ∈ objs, pfIso (permissionFilters u qd.permission) o = some true ∧ o ∈ inv := by
-  unfold filterTargets at h
+  unfold filterTargetsWith at h
   by_cases hp : hasPermission u qd.permission = true
   · refine ⟨hp, ?_⟩
     simp only [hp, Bool.not_true, Bool.false_eq_true, if_false] at h
-    cases h1 : (runNamed qd.sharedFrame (permissionFilters u qd.permission) inv (namedSteps qd.types q) none).result with
+    cases h1 : (runNamed shared (permissionFilters u qd.permission) inv (namedSteps qd.types q) none).result with
     | error e => simp [h1] at h
     | ok named =>
       simp only [h1] at h
@@ -471,8 +476,8 @@ theorem filterTargets_ok (u : User) (qd : QD) (q : Query) (inv : Inventory) (obj
         (fun t n hm => mem_namedSteps_type hm) (StInv_none _) h1
       by_cases hc : (q.filter.isSome || named.isEmpty) = true
       · simp only [hc, if_true] at h
-        cases h2 : (phase2 (permissionFilters u qd.permission) qd q inv
-            (runNamed qd.sharedFrame (permissionFilters u qd.permission) inv (namedSteps qd.types q) none).frame).1 with
+        cases h2 : (phase2 shared (permissionFilters u qd.permission) qd q inv
+            (runNamed shared (permissionFilters u qd.permission) inv (namedSteps qd.types q) none).frame).1 with
         | error e => simp [h2] at h
         | ok found =>
           simp only [h2] at h
@@ -495,12 +500,12 @@ theorem mem_namedSteps_of_request {types : List String} {q : Query} {t n : Strin
   | get t' n' => simp at hs; obtain ⟨rfl, rfl⟩ := hs; exact hst
   | plural _ => simp at hs
 
-theorem filterTargets_forbidden (u : User) (qd : QD) (q : Query) (inv : Inventory) (t n : String) (o : Obj)
-    (hiso : IsoVisit qd.sharedFrame qd.types u)
+theorem filterTargets_forbidden (shared : Bool) (u : User) (qd : QD) (q : Query) (inv : Inventory) (t n : String) (o : Obj)
+    (hiso : IsoVisit shared qd.types u)
     (hreq : (t, n) ∈ namedRequests qd.types q) (hl : lookup inv t n = some o)
     (hpf : pfIso (permissionFilters u qd.permission) o ≠ some true) :
-    ∃ e, (filterTargets u qd q inv).result = .error e := by
-  unfold filterTargets
+    ∃ e, (filterTargetsWith shared u qd q inv).result = .error e := by
+  unfold filterTargetsWith
   by_cases hp : hasPermission u qd.permission = true
   · simp only [hp, Bool.not_true, Bool.false_eq_true, if_false]
     obtain ⟨e, he⟩ := runNamed_forbidden (perm := qd.permission) inv hiso _ none t n o
@@ -583,55 +588,55 @@ theorem runNamed_some_bad (hiso : IsoVisit shared types u) :
 
 end
 
-def finish (fs : List PFilter) (qd : QD) (q : Query) (inv : Inventory) (r : Named) : Except Err (List Obj) :=
+def finish (shared : Bool) (fs : List PFilter) (qd : QD) (q : Query) (inv : Inventory) (r : Named) : Except Err (List Obj) :=
   match r.result with
   | .error e => .error e
   | .ok named =>
     if q.filter.isSome || named.isEmpty then
-      match (phase2 fs qd q inv r.frame).1 with
+      match (phase2 shared fs qd q inv r.frame).1 with
       | .error e => .error e
       | .ok found => .ok (named ++ found)
     else .ok named
 
-theorem filterTargets_result (u : User) (qd : QD) (q : Query) (inv : Inventory) :
-    (filterTargets u qd q inv).result =
+theorem filterTargets_result (shared : Bool) (u : User) (qd : QD) (q : Query) (inv : Inventory) :
+    (filterTargetsWith shared u qd q inv).result =
       if hasPermission u qd.permission then
-        finish (permissionFilters u qd.permission) qd q inv
-          (runNamed qd.sharedFrame (permissionFilters u qd.permission) inv (namedSteps qd.types q) none)
+        finish shared (permissionFilters u qd.permission) qd q inv
+          (runNamed shared (permissionFilters u qd.permission) inv (namedSteps qd.types q) none)
       else .error .permission := by
-  unfold filterTargets finish
+  unfold filterTargetsWith finish
   cases hasPermission u qd.permission with
   | false => simp
   | true =>
     simp only [Bool.not_true, Bool.false_eq_true, if_false, if_true]
-    cases (runNamed qd.sharedFrame (permissionFilters u qd.permission) inv (namedSteps qd.types q) none).result with
+    cases (runNamed shared (permissionFilters u qd.permission) inv (namedSteps qd.types q) none).result with
     | error e => rfl
     | ok named =>
       simp only
       split
-      · cases (phase2 (permissionFilters u qd.permission) qd q inv _).1 <;> rfl
+      · cases (phase2 shared (permissionFilters u qd.permission) qd q inv _).1 <;> rfl
       · rfl
 
-theorem phase2_congr (fs : List PFilter) (qd : QD) (q1 q2 : Query) (inv : Inventory) (st : Option Obj)
+theorem phase2_congr (shared : Bool) (fs : List PFilter) (qd : QD) (q1 q2 : Query) (inv : Inventory) (st : Option Obj)
     (ht : q1.type = q2.type) (hv : q1.typeValid = q2.typeValid) (hf : q1.filter = q2.filter) :
-    phase2 fs qd q1 inv st = phase2 fs qd q2 inv st := by
+    phase2 shared fs qd q1 inv st = phase2 shared fs qd q2 inv st := by
   unfold phase2
   rw [ht, hv, hf]
 
-theorem finish_same {u : User} {perm : String} (qd : QD) (q1 q2 : Query) (inv : Inventory) (r1 r2 : Named)
-    (hiso : IsoVisit qd.sharedFrame qd.types u)
+theorem finish_same {u : User} {perm : String} {shared : Bool} (qd : QD) (q1 q2 : Query) (inv : Inventory) (r1 r2 : Named)
+    (hiso : IsoVisit shared qd.types u)
     (ht : q1.type = q2.type) (hv : q1.typeValid = q2.typeValid) (hf : q1.filter = q2.filter)
     (l1 l2 : List Obj) (h1 : r1.result = .ok l1) (h2 : r2.result = .ok l2) (hp : l1.Perm l2)
     (hs1 : StInv qd.types r1.frame) (hs2 : StInv qd.types r2.frame) :
-    sameOutcome (finish (permissionFilters u perm) qd q1 inv r1) (finish (permissionFilters u perm) qd q2 inv r2) = true := by
+    sameOutcome (finish shared (permissionFilters u perm) qd q1 inv r1) (finish shared (permissionFilters u perm) qd q2 inv r2) = true := by
   have he : l1.isEmpty = l2.isEmpty := by
     cases l1 <;> cases l2 <;> simp_all
-  have hph : phase2 (permissionFilters u perm) qd q1 inv r1.frame = phase2 (permissionFilters u perm) qd q2 inv r2.frame := by
-    rw [phase2_congr _ qd q1 q2 inv _ ht hv hf]
+  have hph : phase2 shared (permissionFilters u perm) qd q1 inv r1.frame = phase2 shared (permissionFilters u perm) qd q2 inv r2.frame := by
+    rw [phase2_congr shared _ qd q1 q2 inv _ ht hv hf]
     exact phase2_frame_irrel qd q2 inv _ _ hiso hs1 hs2
   simp only [finish, h1, h2, hph, hf, he]
   split
-  · cases (phase2 (permissionFilters u perm) qd q2 inv r2.frame).1 with
+  · cases (phase2 shared (permissionFilters u perm) qd q2 inv r2.frame).1 with
     | error e => rfl
     | ok found => simp only [sameOutcome, List.isPerm_iff]; exact hp.append_right found
   · simp only [sameOutcome, List.isPerm_iff]; exact hp
